@@ -160,7 +160,12 @@ def register_props(PROPS, g):
                     return True
             return False
         return rel
-    PROPS["C14"]["components"] = ["runcache", "report"]
+    # C01/C02/C14 rest on the digest being a function of exactly the listed files' bytes (C04): its checks are theirs too
+    for _p in ("C01", "C02", "C14"):
+        PROPS[_p]["components"] = list(PROPS[_p]["components"]) + ["hash"]
+        PROPS[_p]["oracle"] = list(PROPS[_p]["oracle"]) + ["C04"]
+        PROPS[_p]["rule"] = PROPS[_p]["rule"] + "; plus the hash component (C04): the digest these theorems treat as injective is compared with the model and probed for order independence and change sensitivity, incl. files of 1 MiB / 32 MiB and lists longer than the CPU count"
+    PROPS["C14"]["components"] = ["runcache", "hash", "report"]
     PROPS["C14"]["relevant"] = {"report": report_relevant("C14")}
     PROPS["C09"] = {"components": ["report", "runcache"], "oracle": ["C09"], "decode": None, "relevant": {"report": report_relevant("C09")},
                     "nontrivial": ("distinct_nontrivial", "cases with at least two invocations / histories with at least two runs"),
